@@ -1,0 +1,113 @@
+//go:build verif
+
+package security
+
+import (
+	"bytes"
+
+	enc "github.com/named-data/ndnd/std/encoding"
+	"github.com/named-data/ndnd/std/ndn"
+)
+
+// C12: signers and validators agree on equal bytes. Contracts for the gcv verifier; compiled only with tag `verif`.
+// Hash / MAC primitives are uninterpreted (A-HASH, see std/encoding/zz_verif_order.go and gcv deps/hash.contract):
+// a streaming hasher that absorbed the buffers of a wire in order is in state enc.SpecHashWire(w, len(w))
+// (keyed: enc.SpecHashWireFrom(SpecHmacInit(key), w, len(w))); its 32 output bytes are enc.SpecHashByte(state, i).
+
+// the signature carried by a packet: immutable attributes
+//
+//@ func (github.com/named-data/ndnd/std/ndn.Signature).SigType
+//@   pure
+//@ func (github.com/named-data/ndnd/std/ndn.Signature).SigValue
+//@   pure
+
+//@ func (sha256Signer).ComputeSigValue
+//@   modifies enc.GhostHashSt
+//@   ensures result1 == nil && len(result0) == 32 && fresh(result0)
+//@   ensures forallIn(0, 32, func(i int) bool { return result0[i] == enc.SpecHashByte(enc.SpecHashWire(covered, len(covered)), i) })
+//@   loop 1 invariant enc.GhostHashSt == enc.SpecHashWire(covered, rangeindex+1)
+
+//@ func (*sha256IntSigner).ComputeSigValue
+//@   modifies enc.GhostHashSt
+//@   ensures result1 == nil && len(result0) == 32 && fresh(result0)
+//@   ensures forallIn(0, 32, func(i int) bool { return result0[i] == enc.SpecHashByte(enc.SpecHashWire(covered, len(covered)), i) })
+
+//@ func (sha256Signer).EstimateSize
+//@   ensures result == 32
+
+//@ func Sha256Validate
+//@   requires sig != nil
+//@   modifies enc.GhostHashSt
+//@   ensures result == (sig.SigType() == ndn.SignatureDigestSha256 && len(sig.SigValue()) == 32 && forallIn(0, 32, func(i int) bool { return sig.SigValue()[i] == enc.SpecHashByte(enc.SpecHashWire(sigCovered, len(sigCovered)), i) }))
+//@   loop 1 invariant enc.GhostHashSt == enc.SpecHashWire(sigCovered, rangeindex+1)
+
+// Agreement (executable lemma over the real code): a DigestSha256 signature that carries exactly the bytes the
+// signer computed for w is accepted by the validator for the same w.
+//
+//@ func lemmaSha256SignerValidatorAgree
+//@   requires sig != nil
+//@   modifies enc.GhostHashSt
+//@   ensures sig.SigType() == ndn.SignatureDigestSha256 && carries ==> accepted
+//@   ensures accepted ==> carries
+func lemmaSha256SignerValidatorAgree(w enc.Wire, sig ndn.Signature) (carries bool, accepted bool) {
+	v, _ := sha256Signer{}.ComputeSigValue(w)
+	carries = bytes.Equal(sig.SigValue(), v)
+	accepted = Sha256Validate(w, sig)
+	return
+}
+
+// ---- HMAC-SHA256 ----
+
+//@ func (*hmacSigner).ComputeSigValue
+//@   modifies enc.GhostHashSt
+//@   ensures result1 == nil && len(result0) == 32 && fresh(result0)
+//@   ensures forallIn(0, 32, func(i int) bool { return result0[i] == enc.SpecHashByte(enc.SpecHashWireFrom(enc.SpecHmacInit(signer.key), covered, len(covered)), i) })
+//@   loop 1 invariant enc.GhostHashSt == enc.SpecHashWireFrom(enc.SpecHmacInit(signer.key), covered, rangeindex+1)
+
+//@ func (*hmacIntSigner).ComputeSigValue
+//@   modifies enc.GhostHashSt
+//@   ensures result1 == nil && len(result0) == 32 && fresh(result0)
+//@   ensures forallIn(0, 32, func(i int) bool { return result0[i] == enc.SpecHashByte(enc.SpecHashWireFrom(enc.SpecHmacInit(signer.key), covered, len(covered)), i) })
+//@   loop 1 invariant enc.GhostHashSt == enc.SpecHashWireFrom(enc.SpecHmacInit(signer.key), covered, rangeindex+1)
+
+//@ func CheckHmacSig
+//@   modifies enc.GhostHashSt
+//@   ensures result == (len(sigValue) == 32 && forallIn(0, 32, func(i int) bool { return sigValue[i] == enc.SpecHashByte(enc.SpecHashWireFrom(enc.SpecHmacInit(key), sigCovered, len(sigCovered)), i) }))
+//@   loop 1 invariant enc.GhostHashSt == enc.SpecHashWireFrom(enc.SpecHmacInit(key), sigCovered, rangeindex+1)
+
+//@ func HmacValidate
+//@   requires sig != nil
+//@   modifies enc.GhostHashSt
+//@   ensures result == (sig.SigType() == ndn.SignatureHmacWithSha256 && len(sig.SigValue()) == 32 && forallIn(0, 32, func(i int) bool { return sig.SigValue()[i] == enc.SpecHashByte(enc.SpecHashWireFrom(enc.SpecHmacInit(key), sigCovered, len(sigCovered)), i) }))
+
+// Agreement for HMAC: the validator with the signer's key accepts exactly the value the signer computed.
+//
+//@ func lemmaHmacSignerValidatorAgree
+//@   requires sig != nil && s != nil
+//@   modifies enc.GhostHashSt
+//@   ensures sig.SigType() == ndn.SignatureHmacWithSha256 && carries ==> accepted
+//@   ensures accepted ==> carries
+func lemmaHmacSignerValidatorAgree(s *hmacSigner, w enc.Wire, sig ndn.Signature) (carries bool, accepted bool) {
+	v, _ := s.ComputeSigValue(w)
+	carries = bytes.Equal(sig.SigValue(), v)
+	accepted = HmacValidate(w, sig, s.key)
+	return
+}
+
+// ---- signature type announced by each shipped signer = the type its matching validator checks for ----
+
+//@ func (sha256Signer).SigInfo
+//@   ensures result1 == nil && result0 != nil && result0.Type == ndn.SignatureDigestSha256
+
+//@ func (*hmacSigner).SigInfo
+//@   ensures result1 == nil && result0 != nil && result0.Type == ndn.SignatureHmacWithSha256
+
+//@ func (*eccSigner).SigInfo
+//@   requires s.timer != nil
+//@   modifies s.seq
+//@   ensures result1 == nil && result0 != nil && result0.Type == ndn.SignatureSha256WithEcdsa
+
+//@ func (*rsaSigner).SigInfo
+//@   requires s.timer != nil
+//@   modifies s.seq
+//@   ensures result1 == nil && result0 != nil && result0.Type == ndn.SignatureSha256WithRsa
